@@ -274,6 +274,14 @@ func bedDrive(args []string) error {
 				file = append(file, '\n')
 			}
 			b := bedRecord(r, n)
+			if sid%9 == 7 { // chromosome (and feature) names that collide under common string hashes, in turn
+				cn := collidingNames()
+				pr := cn[(sid/9)%len(cn)]
+				b.Chrom = pr[i%2]
+				if n >= 4 {
+					b.Name = pr[(i/2)%2]
+				}
+			}
 			if sid%9 == 6 && i == nrec/2 && n >= 4 { // a line of exactly a power of two bytes (one less under CRLF)
 				sizes := []int{4096, 65536, 131072}
 				if thorough() {
